@@ -346,6 +346,13 @@ def h_extract(ctx, kind, tagged):
     exp.update(dl_type=0x0806)
     if bool(op <= 255): exp.update(nw_proto=op, nw_src=num(spa), nw_dst=num(tpa), nw_tos=None, tp_src=None, tp_dst=None)
     else: exp.update({k: None for k in absent})
+  elif kind == 'qinq':
+    # a second 802.1Q tag behind the first: OpenFlow 1.0 looks at the outermost tag only - the ethertype that follows it (0x8100) is the
+    # dl_type, and nothing behind it (an IPv4/UDP datagram here) contributes to the tuple
+    tci2 = ctx.int('tci2', 0, 0xffff)
+    b += [0x81, 0x00] + be(tci2, 2) + [0x08, 0x00] + [0x45, 0, 0, 28, 0, 0, 0, 0, 64, 17, 0, 0] + list(ctx.bytes('ipsrc', 4)) + list(ctx.bytes('ipdst', 4)) + [0, 7, 0, 9, 0, 8, 0, 0]
+    exp.update(dl_type=0x8100); exp.update({k: None for k in absent})
+    ctx.witness('qinq')
   elif kind in ('llc', 'snap'):
     # 802.3 frame (length field < 0x600): with a SNAP header whose OUI is 0 the SNAP ethertype is the dl_type, otherwise 0x05ff (OpenFlow 1.0 sec. 3.4)
     et = ctx.int('ethertype', 0x0600, 0xffff)
@@ -389,7 +396,7 @@ def obligations(tier):
   return [
     Obligation('O1_matcher', h_matcher, [dict(kind=k, tied=not thorough) for k in kinds], witnesses=('matched', 'nomatch'),
                desc='matches_with_wildcards(flow, packet) <=> OpenFlow 1.0 predicate, flow decoded from symbolic wire bytes'),
-    Obligation('O2_extract', h_extract, [dict(kind=k, tagged=t) for k in ('ip', 'arp', 'other') for t in (False, True)] + [dict(kind='llc', tagged=False), dict(kind='snap', tagged=False)],
+    Obligation('O2_extract', h_extract, [dict(kind=k, tagged=t) for k in ('ip', 'arp', 'other') for t in (False, True)] + [dict(kind='llc', tagged=False), dict(kind='snap', tagged=False), dict(kind='qinq', tagged=True)],
                witnesses=('extracted', 'fragment', 'ports', 'icmp', 'snap-oui0'), max_decisions=20000,
                desc='from_packet field extraction vs byte-offset extractor: VLAN tag, ARP, ICMP type/code, fragments (MF or offset) zero the ports'),
     Obligation('O3_insert', h_insert, [dict(n=3, prefixes=True)] + [dict(n=k) for k in ((3, 4, 5) if not thorough else (3, 4, 5, 6, 7))], witnesses=('done', 'exact', 'prefix'), max_decisions=20000,
